@@ -136,6 +136,7 @@ func (b *Broker) subscribe(ctx context.Context, topic string) bool {
 	if _, ok := topics.Load(topic); ok {
 		return false
 	}
+	verifYield("subscribe.checked", id)
 	_, loaded := topics.LoadOrStore(topic, new(MessageCache))
 	if !loaded && b.OnSubscribe != nil {
 		b.OnSubscribe(ctx, id, topic)
